@@ -53,7 +53,7 @@ uint64_t Avtp_GetField(const Avtp_FieldDescriptor_t* fieldDescriptors,
         uint8_t quadletOffset = 0;
         uint8_t processedBits = 0;
         while (processedBits < fieldDescriptor->bits) {
-            uint8_t quadletId = fieldDescriptor->quadlet + quadletOffset;
+            uint32_t quadletId = fieldDescriptor->quadlet + quadletOffset;
             uint8_t quadletBits;
             uint8_t quadletShift;
             if (processedBits == 0) {
@@ -85,7 +85,7 @@ void Avtp_SetField(const Avtp_FieldDescriptor_t* fieldDescriptors,
         uint8_t quadletOffset = 0;
         uint8_t processedBits = 0;
         while (processedBits < fieldDescriptor->bits) {
-            uint8_t quadletId = fieldDescriptor->quadlet + quadletOffset;
+            uint32_t quadletId = fieldDescriptor->quadlet + quadletOffset;
             uint8_t quadletBits;
             uint8_t quadletShift;
             if (processedBits == 0) {
